@@ -284,6 +284,57 @@ fn cli_create_at(rows: &[&Vec<Cls>], project: bool, same_pos: bool, scratch: &Sc
     parse_out(&run_sfs(&args, Stdin::Bytes(&vcf), scratch))
 }
 
+/// create(a) + create(b) = create(a || b) for two long parts (`k` records each, cycling through the
+/// record kinds) in one container with an optional --threads value.
+fn eval_long_split(k: usize, container: usize, threads: usize, project: bool, scratch: &Scratch) -> Option<Viol> {
+    use crate::gen::{render, Container, Layout};
+    let ks = kinds();
+    let cont = Container::all()[container];
+    let mk = |from: usize, to: usize| -> Vec<u8> {
+        let mut cs = CallSet::new(4);
+        for i in from..to {
+            let row = &ks[(i * 5 + i / 7) % ks.len()].1;
+            if row.iter().all(|c| *c == Cls::Missing) {
+                cs.push_gts(&[crate::gen::NO_GT_KEY; 4]);
+            } else {
+                let gts: Vec<&str> = row.iter().enumerate().map(|(j, c)| c.spell(j + i)).collect();
+                cs.push_gts(&gts);
+            }
+            let last = cs.records.len() - 1;
+            cs.records[last].alts = vec!["C", "G", "T"];
+            cs.records[last].pos = 1000 + i;
+        }
+        render(&cs, cont, &Layout::Single)
+    };
+    let sarg = sample_arg(&MAP);
+    let ts = threads.to_string();
+    let mut args = vec!["create", "-s", &sarg];
+    if project {
+        args.extend(["--project-shape", "3,3", "--precision", "12"]);
+    }
+    if threads > 0 {
+        args.extend(["--threads", &ts]);
+    }
+    let run = |bytes: &[u8]| parse_out(&run_sfs(&args, Stdin::Bytes(bytes), scratch));
+    let (a, b, whole) = (run(&mk(0, k)), run(&mk(k, 2 * k)), run(&mk(0, 2 * k)));
+    let ok = match (&a, &b, &whole) {
+        (Ok(x), Ok(y), Ok(w)) => w.shape == x.shape && w.shape == y.shape && w.data.iter().zip(x.data.iter().zip(&y.data)).all(|(w, (x, y))| (w - (x + y)).abs() <= if project { 1e-7 } else { 0.0 }),
+        _ => false,
+    };
+    if ok {
+        return None;
+    }
+    let brief = |r: &Result<RefArray, String>| match r {
+        Ok(x) => format!("sum {}", x.sum()),
+        Err(e) => e.chars().take(200).collect(),
+    };
+    Some((
+        format!("C11|cli|long-split-not-additive|{}|{}", cont.name(), if project { "project" } else { "no-projection" }),
+        format!("two parts of {k} records as {}{}: parts ({}) + ({}) != whole ({})", cont.name(), if threads > 0 { format!(" with --threads {threads}") } else { String::new() }, brief(&a), brief(&b), brief(&whole)),
+        J::obj([("kind", J::s("c11-long-split")), ("records_per_part", J::u(k)), ("container", J::u(container)), ("threads", J::u(threads)), ("project", J::Bool(project))]),
+    ))
+}
+
 pub fn run(tier: Tier) -> i32 {
     let mut rep = Report::new("C11", tier, "model_checking");
     let ks = kinds();
@@ -416,6 +467,33 @@ pub fn run(tier: Tier) -> i32 {
                 }
             }
         }
+    }
+    // long parts: each part fits one compressed block, their concatenation does not (and parts that
+    // span several blocks themselves); every container, default and explicit thread counts
+    {
+        let mut lj: Vec<(usize, usize, usize, bool)> = Vec::new();
+        let ks_parts: Vec<usize> = if tier.thorough() { vec![1500, 4000, 40_000] } else { vec![1500, 4000] };
+        for &k in &ks_parts {
+            for c in 0..crate::gen::Container::all().len() {
+                for t in [0usize, 1, 3] {
+                    for proj in [false, true] {
+                        lj.push((k, c, t, proj));
+                    }
+                }
+            }
+        }
+        let res = par_map(lj.len(), |i| eval_long_split(lj[i].0, lj[i].1, lj[i].2, lj[i].3, &scratch));
+        for v in res.into_iter().flatten() {
+            rep.violation(v.0, v.1, v.2);
+        }
+        rep.part(Part {
+            name: "cli: long parts and their concatenation".into(),
+            evaluations: 3 * lj.len() as u64,
+            nontrivial: 3 * lj.len() as u64,
+            note: format!("parts of {ks_parts:?} records each (the shortest fit one BGZF block each, their concatenation needs two) x 4 containers x {{default threads, --threads 1, --threads 3}} x {{no projection, --project-shape 3,3}}: create(a) + create(b) = create(a||b)"),
+            exhaustive: true,
+            extra: vec![],
+        });
     }
     // a cohort of 150 samples under projection: tables that depend on sizes must not depend on the
     // order in which records with different numbers of called samples arrive
@@ -584,6 +662,15 @@ pub fn replay(case: &J) -> Option<Vec<String>> {
                 }
             }
             Some(out)
+        }
+        "c11-long-split" => {
+            let scratch = Scratch::new("c11r");
+            Some(
+                eval_long_split(case.get("records_per_part")?.as_i64()? as usize, case.get("container")?.as_i64()? as usize, case.get("threads")?.as_i64()? as usize, matches!(case.get("project")?, J::Bool(true)), &scratch)
+                    .into_iter()
+                    .map(|(k, w, _)| format!("{k} :: {w}"))
+                    .collect(),
+            )
         }
         "c11-perm" | "c11-split" => {
             let ks = kinds();
